@@ -11,10 +11,10 @@ git -C $WT diff > $SD/patch.confirmed.diff
 echo "== build with change"; cmake --build $WT/_build -j16 2>&1 | tail -1
 echo "== ctest with change"; ctest --test-dir $WT/_build -j1 --timeout 900 2>&1 | grep "tests passed"
 bash $SD/build_demo.sh $WT >/dev/null 2>&1; (cd $SD && ./demo > $SD/confirm_with.txt 2>&1; echo "demo with change rc=$?")
-git -C $WT stash -q
+git -C $WT apply -R $SD/patch.confirmed.diff   # (not git stash: the stash ref is shared by all worktrees)
 cmake --build $WT/_build -j16 2>&1 | tail -1
 bash $SD/build_demo.sh $WT >/dev/null 2>&1; (cd $SD && ./demo > $SD/confirm_without.txt 2>&1; echo "demo without change rc=$?")
-git -C $WT stash pop -q
+git -C $WT apply $SD/patch.confirmed.diff
 mkdir -p $OUT
 cp $SD/patch.confirmed.diff $OUT/patch.diff
 cp $SD/demo.cpp $SD/build_demo.sh $SD/notes.md $OUT/ 2>/dev/null
